@@ -109,7 +109,7 @@ TTempCreate == Ev("TempCreate") /\ Adv /\ WCreate(TW) /\ TUNCH
 \* silent: creation refused after the handler closed the list (the worker then reports an open error)
 TCreateRefused(w) == More /\ WCreateRefused(w) /\ UNCHANGED l /\ TUNCH
 TTempRegister == Ev("TempRegister") /\ Adv /\ WRegister(TW) /\ TUNCH
-TReaderDrop == Ev("ReaderDrop") /\ Adv /\ WDrop(TW) /\ TUNCH
+TReaderDrop == Ev("ReaderDrop") /\ Adv /\ (IF TW \in TMPW THEN WDrop(TW) ELSE Stutter) /\ TUNCH
 TWReturn ==
   /\ Ev("WReturn") /\ Adv
   /\ WReturn(TW)
